@@ -64,8 +64,8 @@ pub fn dispatch(kind: &str, v: &Value) -> Option<Outcome> {
     }
 }
 
-pub fn run(ctx: &Ctx) -> i32 {
-    let mut st = ctx.run_replays(&dispatch);
+pub fn campaigns(ctx: &Ctx) -> Stats {
+    let mut st = Stats::default();
     let t = ctx.tier;
     let (len, total) = t.pick((12usize, 6000u64), (40, 150000));
     for (name, exact) in [("exact-programs", true), ("mixed-programs", false)] {
@@ -84,6 +84,12 @@ pub fn run(ctx: &Ctx) -> i32 {
         let width = [1, 2, 4][(i / nd / 4) as usize];
         Some(HistCase { oracle: "c01".into(), hist: deep_program(pattern, depth, width) })
     }));
+    st
+}
+
+pub fn run(ctx: &Ctx) -> i32 {
+    let mut st = ctx.run_replays(&dispatch);
+    st.merge(campaigns(ctx));
     finish(
         ctx,
         st,
